@@ -84,6 +84,12 @@ impl Scenario for Batch {
                 }
             }
         }
+        // the server closes with reply code 200 (and 0): still the server's close
+        for code in [200u64, 0] {
+            for ev in [vec!["SC"], vec!["A1:call", "SC"], vec!["SC", "K:close"], vec!["K:close", "SC"], vec!["SCh", "SC", "A2"]] {
+                v.push(json!({"events": ev, "mode": "one", "stall": false, "sc_code": code}));
+            }
+        }
         // the reply to a call in flight on channel 1 and the server's close right behind it, in
         // one read (mem_channel_bound 1 and 16: the reply queue has to hold both)
         for close in ["SCh", "SC"] {
@@ -151,7 +157,10 @@ impl Scenario for Batch {
     }
     fn build(&self, p: &Value) -> Built {
         let mut broker = StdBroker::new(Handshake::default());
-        broker.pushes.push(Push::new("SC", vec![conn_close_frame(320, "bye")]).manual());
+        // (sc_code: the reply code of the server's Connection.Close; 200 - "reply-success" - is a
+        // close like any other)
+        let sc_code = p["sc_code"].as_u64().unwrap_or(320) as u16;
+        broker.pushes.push(Push::new("SC", vec![conn_close_frame(sc_code, "bye")]).manual());
         broker.pushes.push(Push::new("SCh", vec![chan_close_frame(1, 404, "NOT_FOUND")]).manual());
         broker.pushes.push(Push::new("SCh2", vec![chan_close_frame(2, 404, "NOT_FOUND")]).manual());
         let mut cfg = EnvConfig::default();
@@ -365,8 +374,8 @@ impl Scenario for Batch {
         }
         let k = o.logs.get("K").cloned().unwrap_or_default();
         if let Some(c) = k.iter().find(|l| l.starts_with("close -> ")) {
-            let want = if has_sc { "close -> Err(ServerClosedConnection(320,bye))" } else { "close -> Ok" };
-            if c != want {
+            let want = if has_sc { format!("close -> Err(ServerClosedConnection({},bye))", p["sc_code"].as_u64().unwrap_or(320)) } else { "close -> Ok".to_string() };
+            if *c != want {
                 v.push((format!("batch:close-result:{}", c.trim_start_matches("close -> ")), format!("Connection::close: {} expected {}; events {:?}", c, want, events)));
             }
         }
